@@ -288,7 +288,8 @@ TIE_NAMES = {'encode_varint': 'utils.encode_varint', 'prepend_compact_size': 'ut
              'block_header': 'BlockHeader.get_target_bits / serialize_header / get_block_hash',
              'tx_parts': 'TxOutput.to_bytes and TxInput.to_bytes (modulo Script.to_bytes)',
              'tx_whole': 'TxWitnessInput.to_bytes and Transaction.to_bytes (loops included)',
-             'tx_ids': 'Transaction.get_txid / _get_hash (get_wtxid) / get_size'}
+             'tx_ids': 'Transaction.get_txid / _get_hash (get_wtxid) / get_size',
+             'segwit_digest': 'Transaction.get_transaction_segwit_digest (BIP143, whole function)'}
 
 
 def with_ties(ties, level_text, level_note, technique):
